@@ -595,7 +595,8 @@ def c19(tier, replay=None):
         pv.write_ndjson(trace, [rep["detail"]["record"]])
         info = {"records": 1, "rules": {}}
     else:
-        p = pv.pv(["c19", "--out", trace, "--roundtrip", 6000 if T else 800, "--max-operand-width", 4 if T else 3, "--max-width", 10 if T else 8])
+        p = pv.pv(["c19", "--out", trace, "--roundtrip", 6000 if T else 800, "--saturate", 12000 if T else 1200,
+                   "--max-operand-width", 4 if T else 3, "--max-width", 10 if T else 8])
         info = json.loads(p.stdout.strip().splitlines()[-1])
     st = batch_check(chk, "Trace_C01", trace, lambda rj, rec: {"why": rj["why"], "loc": rj.get("loc", ""), "rule": rec.get("info", {}).get("rule", "")},
                      lambda rj, rec: {"record": rec, "tlc": rj}, shards=14)
@@ -607,9 +608,11 @@ def c19(tier, replay=None):
     chk.cov["distinct_nontrivial"] = st["records"]
     chk.cov["rule"] = ("every rule of create_rewrites() x every assignment of operand widths (1..3/4), other widths (1..8/10) and signs for which the real "
                        "eval_condition holds: both patterns instantiated, lowered with from_arith and compared by TLC under ALL operand values (<= 10 bits "
-                       "exhaustive); plus to_arith/from_arith round trips of generated add/sub/mul/shift expressions over extended operands")
+                       "exhaustive); plus to_arith/from_arith round trips of generated add/sub/mul/shift expressions over extended operands; plus equality "
+                       "saturation of generated terms with create_egg_rewrites() (conditions evaluated by egg on e-class data): every member of the root "
+                       "class, completed with smallest sub-terms, against the source expression")
     sample_lines(chk, trace, 3, lambda r: {"id": r["id"], "info": r.get("info"), "nodes": [[n["op"], n["w"], n["a"], n["by"]] for n in r["nodes"]]})
-    chk.part("harness", records=info["records"])
+    chk.part("harness", records=info["records"], saturated_terms=info.get("saturated_terms", 0), saturation_variants=info.get("saturation_variants", 0))
     chk.part("rules", **info.get("rules", {}))
     return chk.finish()
 
